@@ -1149,20 +1149,34 @@ def _chunk(fr, x, n, dim=0):
 
 
 # ------------------------------------------------------------------ reductions
-SUM_FUNS = {}
+SUM_DEFS = {}     # function name -> (placeholder consts, summation variable, body template, kind)
+_SUM_BY_KEY = {}
 
 
-def sum_fun(kind):
-    if kind not in SUM_FUNS:
-        sort = z3.IntSort() if kind == 'int' else z3.RealSort()
-        SUM_FUNS[kind] = z3.Function('SUM_' + kind, z3.ArraySort(z3.IntSort(), sort), z3.IntSort(), z3.IntSort(), sort)
-    return SUM_FUNS[kind]
+def _free_consts(t, skip):
+    out, seen = [], set()
+
+    def rec(x):
+        if z3.is_const(x) and x.decl().kind() == z3.Z3_OP_UNINTERPRETED and not z3.is_array(x):
+            if x.get_id() not in seen and not any(x.eq(s_) for s_ in skip):
+                seen.add(x.get_id())
+                out.append(x)
+            return
+        if z3.is_quantifier(x):
+            rec(x.body())
+            return
+        for ch in x.children():
+            rec(ch)
+    rec(t)
+    return out
 
 
 def Sum(lo, hi, f, kind='int'):
-    """sum_{k=lo}^{hi-1} f(k).  Concrete bounds: explicit addition.  Symbolic: the uninterpreted
-    SUM(lambda k. f(k), lo, hi) — congruence (equal summands => equal sums) then comes from array
-    extensionality; unfolding lemmas are instantiated by the contracts that need them."""
+    """sum_{k=lo}^{hi-1} f(k).  Concrete bounds: explicit addition.  Symbolic: an application
+    SUM_<summand shape>(free constants of the summand, lo, hi) of an uninterpreted function that
+    stands for the sum of that summand shape (no lambda terms reach the solver).  Congruence of sums
+    (sum_congr_range) is applied by ops.smart_eq through the registry of summand templates;
+    unfolding lemmas are instantiated by the contracts that need them."""
     lo_, hi_ = O.simp(lo), O.simp(hi)
     if isinstance(lo_, int) and isinstance(hi_, int):
         out = 0
@@ -1181,7 +1195,27 @@ def Sum(lo, hi, f, kind='int'):
         body = z3.ToReal(body)
     if kind == 'int' and z3.is_real(body):
         kind = 'real'
-    return sum_fun(kind)(z3.Lambda([k], body), O.to_z3(lo), O.to_z3(hi))
+    body = z3.simplify(body)
+    consts = _free_consts(body, [k])
+    ph = [z3.Const('ph!%d' % i, c.sort()) for i, c in enumerate(consts)]
+    templ = z3.substitute(body, *[(c, p) for c, p in zip(consts, ph)]) if consts else body
+    key = (templ.sexpr(), kind)
+    if key not in _SUM_BY_KEY:
+        name = 'SUM_%d' % len(_SUM_BY_KEY)
+        sort = z3.IntSort() if kind == 'int' else z3.RealSort()
+        fn = z3.Function(name, *[c.sort() for c in consts], z3.IntSort(), z3.IntSort(), sort)
+        _SUM_BY_KEY[key] = fn
+        SUM_DEFS[name] = (ph, k, templ, kind)
+        O.SUM_DEFS = SUM_DEFS
+    fn = _SUM_BY_KEY[key]
+    return fn(*consts, O.to_z3(lo), O.to_z3(hi))
+
+
+def sum_summand(app, kvar):
+    """summand of a SUM_* application at index kvar"""
+    ph, k, templ, kind = SUM_DEFS[app.decl().name()]
+    args = app.children()
+    return z3.substitute(templ, *([(p, a) for p, a in zip(ph, args[:len(ph)])] + [(k, kvar)]))
 
 
 def reduce_dims(x, dim, rank):
@@ -1351,6 +1385,26 @@ def _abs(fr, x):
         s = x.snapshot()
         return Tn.fresh(x.shape, lambda *i: O.vabs(s(*i)), x.kind, lib=x.lib)
     return O.vabs(unwrap_scalar(x))
+
+
+@lib('torch.cumsum', 'numpy.cumsum')
+def _cumsum(fr, x, dim=None, axis=None, **kw):
+    if axis is not None:
+        dim = axis
+    if dim is None:
+        raise Unsupported("cumsum without dim")
+    d = norm_dim(dim, x.rank)
+    s = x.snapshot()
+    kind = 'real' if x.kind == 'real' else 'int'
+
+    def content(*idx):
+        return Sum(0, idx[d] + 1, lambda k: s(*(list(idx[:d]) + [k] + list(idx[d + 1:]))), kind)
+    return Tn.fresh(list(x.shape), content, kind, lib=x.lib)
+
+
+@method('Tn.cumsum')
+def _m_cumsum(fr, x, *a, **kw):
+    return _cumsum(fr, x, *a, **kw)
 
 
 @lib('torch.sub')
